@@ -125,8 +125,10 @@ CLAIMS = {
 }
 
 CLAIMS["C12"] = {
-    "technique": "bounded Kani harnesses on the negotiation functions extracted verbatim (icu_locid types and std Vec replaced by small stand-ins)",
-    "text": "Bounded: for up to 3 supported locales and up to 2 (quick) / 3 (thorough) requested languages over a closed subtag universe, "
+    "technique": "Verus proofs of the subtag comparisons (extracted, icu_locid types as shims) + bounded Kani harnesses on the negotiation functions extracted verbatim (icu_locid types and std Vec replaced by small stand-ins)",
+    "text": "Proved (Verus, every value): lang_matches, subtag_matches (for every subtag type) and into_specificity compute "
+            "the property's notions of a matching language, of a subtag that matches exactly or is absent on the side "
+            "treated as a range, and of specificity (number of subtags beyond the language). Bounded: for up to 3 supported locales and up to 2 (quick) / 3 (thorough) requested languages over a closed subtag universe, "
             "find_match returns the default locale when no supported locale matches any request, and otherwise a "
             "supported locale that matches the earliest-listed request that has a match at all (exactly, or as a less "
             "specific form of it), the exact match when there is one. Complete over the same universe: lang_id_matches "
